@@ -26,9 +26,12 @@ Definition wf_op_c03_b (s : state) (o : op) : bool :=
   | OBegin t => now s <? t
   | OTx m => bool_decide (ta_bytes (msg_sender m) ∉ c_blocked (cfg s)) && bal_small_b s (ta_bytes (msg_sender m))
   | OGov cs =>
+      (* a proposal that fails a per-key validator is not executed at all; an executed one must keep the one
+         cross-field condition the validators cannot see *)
       let s' := fold_left apply_pchange cs s in
-      par_ok_b (pars s') &&
-      bool_decide (map_Forall (fun _ x => ss_status x = SPending -> ss_inactive_at x <= now s + p_sub_delay (pars s')) (sessions s))
+      negb (forallb pchange_valid cs) ||
+      ((p_sess_delay (pars s') <=? p_sub_delay (pars s')) &&
+       bool_decide (map_Forall (fun _ x => ss_status x = SPending -> ss_inactive_at x <= now s + p_sub_delay (pars s')) (sessions s)))
   | OEnd => true
   end.
 
